@@ -98,7 +98,11 @@ def _bloom_target(ctx, d, counting, case):
     if backing and exportable:
         # an assignment through the elements_added setter leaves the footer in the FILE behind until the next add / export / close;
         # bring it up to date once, so that the raw file can be part of the observable state below
+        pre = (bytes(bytearray(o.bloom[: o.bloom_length])), o.elements_added)
         o.export(os.path.join(tmp, "settle.blm"))
+        post = (bytes(bytearray(o.bloom[: o.bloom_length])), o.elements_added)
+        ctx.check("C19.readonly", pre == post, lambda: f"ondisk: the first export of the history's final state changed it: elements_added "
+                                                       f"{pre[1]} -> {post[1]}, cells equal: {pre[0] == post[0]}")
 
     def raw_cells():
         return bytes(bytearray(o.bloom[: o.bloom_length])) if not counting else o.bloom.tobytes()
